@@ -79,7 +79,7 @@ NOTES = [
     'the Comment header on one line whatever its length, RFC 4716 3.3 limits header lines to 72 bytes (continuation '
     'with a backslash). OpenSSH / asyncssh read such files identically, so the interoperability claim holds; '
     'repro: notes/findings/c15_rfc4716_comment_line_over_72.py',
-    'observation, fixed in /repo (8d430e0): RSAKey.decode_ssh_private divided by zero for p or q == 1 '
+    'observation, fixed in /repo (bf20790): RSAKey.decode_ssh_private divided by zero for p or q == 1 '
     '(notes/findings/c15_obs_rsa_p1_zerodivision.py); the contract states PacketDecodeError iff p < 2 or q < 2',
     'helper-level behaviour, not a property clause: _decode_openssh_private / _decode_pkcs1_* decode file supplied names '
     'as ASCII in error messages (UnicodeDecodeError, a ValueError); import_private_key / import_public_key (under '
